@@ -30,3 +30,10 @@ add('C18', 'Hypothesis generated id collections / token lists + reference range 
     'wrapped CTI values are unwrapped and compared token by token with per-line width limits. Exploration (small universe exhaustive).',
     'Trusted: the decoder\'s reading of "A to B" (ids between the endpoints at the endpoint\'s digit count); tokens contain no blanks or quotes.',
     'DESIGN.md 3/C18')
+add('C02', 'Hypothesis generated coefficient vectors / segment bounds / temperature sets + closed-form reference, Richardson derivative identities, array-vs-scalar metamorphic relation',
+    'Generated NASA-7, NASA-9 (1-4 segments, any listing order) and Shomate (all 16 fitting units) species with physical, arbitrary-magnitude and unit-vector '
+    'coefficients, evaluated at temperatures inside, on and one float next to every break: values vs closed forms typed from the definitions (upper segment at the '
+    'NASA-7 break, either neighbour at NASA-9 boundaries, refusal outside), G=H-TS, dH/dT=Cp and T dS/dT=Cp by Richardson differences inside segments, and '
+    'get_X(array)[i]==get_X(array[i]) for dimensionless and dimensional getters. Exploration only.',
+    'Trusted: closed forms in vf/ref.py; tolerances 1e-12 / 1e-13 of the sum of |terms|; derivative stencils never straddle a break.',
+    'DESIGN.md 3/C02')
